@@ -48,7 +48,23 @@ HasUser(w, u) == \E i \in DOMAIN w.users : w.users[i].n = u
 Entry(w, u) == (CHOOSE i \in DOMAIN w.users : w.users[i].n = u)
 Default(w) == IF w.dsrc = "none" THEN <<>> ELSE w.d
 Levels(w, u) == IF u # 0 /\ HasUser(w, u) THEN w.users[Entry(w, u)].l ELSE Default(w)
-SecretOk(w, u, s) == HasUser(w, u) /\ s = u
+SecretOk(w, u, s) == HasUser(w, u) /\ s = w.users[Entry(w, u)].sec     \* (secret numbers: normally that of the user; 4 = "s4")
+
+(* Ambiguous configurations.  The documentation does not say which entry wins when the default levels are given both   *)
+(* by --accesslevel (w.d) and by a '*' line of the ACL file (w.d2, dsrc = "both"), or when a user name occurs on two    *)
+(* lines.  P accepts either candidate entry - ONE choice for the whole session, secret and levels of a duplicated user   *)
+(* from the SAME line - and never a union or a mix.  Resolve gives the unambiguous world of a choice.                   *)
+HasDup(w) == \E i, j \in DOMAIN w.users : i < j /\ w.users[i].n = w.users[j].n
+Choices(w) == (IF w.dsrc = "both" THEN {"opt", "line"} ELSE {"x"}) \X (IF HasDup(w) THEN {"first", "last"} ELSE {"x"})
+CodeChoice(w) == <<IF w.dsrc = "both" THEN "line" ELSE "x", IF HasDup(w) THEN "last" ELSE "x">>   \* what UserList does: later replaces
+RECURSIVE KeepSeq(_, _, _)
+KeepSeq(us, keep, k) == IF k > Len(us) THEN <<>> ELSE (IF k \in keep THEN <<us[k]>> ELSE <<>>) \o KeepSeq(us, keep, k + 1)
+Resolve(w, ch) ==
+  LET keep == {i \in DOMAIN w.users : IF ch[2] = "first" THEN ~\E j \in DOMAIN w.users : j < i /\ w.users[j].n = w.users[i].n
+                                       ELSE ~\E j \in DOMAIN w.users : j > i /\ w.users[j].n = w.users[i].n}
+  IN [w EXCEPT !.dsrc = IF @ = "both" THEN "opt" ELSE @,
+               !.d = IF w.dsrc = "both" /\ ch[1] = "line" THEN w.d2 ELSE @,
+               !.users = KeepSeq(w.users, keep, 1)]
 
 Msgs(w) == DOMAIN w.msgs
 Active(w, i) == w.msgs[i].k \in {"r", "w"}
@@ -308,8 +324,9 @@ ListStarB == <<STAR, SEMI, B>>
 ListPool == {ListEmpty, ListA, ListAbB, ListStar, ListAStar, ListAbaBa}
 MsgLevels == {<<>>, La, Lb, Lab, Laba}
 
-Usr(n, l, sep) == [n |-> n, l |-> l, sep |-> sep]
-Acl(dsrc, d, users) == [dsrc |-> dsrc, d |-> d, users |-> users]
+Usr(n, l, sep) == [n |-> n, l |-> l, sep |-> sep, sec |-> n]
+UsrS(n, l, sec) == [n |-> n, l |-> l, sep |-> 0, sec |-> sec]
+Acl(dsrc, d, users) == [dsrc |-> dsrc, d |-> d, d2 |-> <<>>, users |-> users]
 
 AclQuick == {
   Acl("opt", ListA, <<Usr(1, ListAbB, 0), Usr(2, ListAStar, 1)>>),
@@ -338,18 +355,32 @@ MsgConfigsOver(lay, LV) ==
 MsgConfigs(lay) == MsgConfigsOver(lay, MsgLevels)
 
 WorldsOver(acls, LV1, LV23) ==
-  UNION { { [lay |-> lay, dsrc |-> a.dsrc, d |-> a.d, users |-> a.users, msgs |-> m] :
+  UNION { { [lay |-> lay, dsrc |-> a.dsrc, d |-> a.d, d2 |-> a.d2, users |-> a.users, msgs |-> m] :
               a \in acls, m \in MsgConfigsOver(lay, IF lay = 1 THEN LV1 ELSE LV23) } : lay \in 1..3 }
 (* probing message sets for the large ACL family *)
 ProbeMsgs == { [lay |-> 1, msgs |-> <<Msg("r", "ca", "rd", Lab), Msg("w", "ca", "wr", La)>>],
                [lay |-> 2, msgs |-> <<Msg("r", "ca", "rd", La), Msg("w", "ca", "wr", Lb), Msg("u", "ca", "rd", Laba)>>] }
+(* ambiguous configurations (layout 4 = the read/write pair of layout 1 with its own sessions): default levels by option *)
+(* AND by a '*' line with another (also an empty) list; a user on two lines with different lists and secrets (sink users  *)
+(* are these users)                                                                                                     *)
+AclAmbiguous == {
+  [Acl("both", ListA, <<Usr(1, ListAbaBa, 0)>>) EXCEPT !.d2 = ListAbB],
+  [Acl("both", ListAbB, <<Usr(1, ListA, 0)>>) EXCEPT !.d2 = ListEmpty],
+  [Acl("both", ListEmpty, <<Usr(1, ListAbaBa, 0), Usr(2, ListA, 1)>>) EXCEPT !.d2 = ListA],
+  Acl("none", <<>>, <<UsrS(1, ListA, 1), UsrS(1, ListAbB, 4), UsrS(2, ListAbaBa, 2)>>),
+  Acl("opt", ListAbaBa, <<UsrS(1, ListAbB, 1), UsrS(2, ListA, 2), UsrS(1, ListEmpty, 4)>>),
+  Acl("acl", ListEmpty, <<UsrS(1, ListAbB, 1), UsrS(1, ListA, 1)>>) }           \* same secret on both lines
+AmbiguousWorlds ==
+  { [lay |-> 4, dsrc |-> a.dsrc, d |-> a.d, d2 |-> a.d2, users |-> a.users, msgs |-> m] :
+      a \in AclAmbiguous, m \in MsgConfigsOver(1, {<<>>, La, Lb, Lab}) }
 (* quick: 8 ACLs x (all 25 level assignments of the read/write pair + 9 + 9 for the layouts with a twin);          *)
 (* thorough: 8 ACLs x (25 + 25 + 25) and every ACL of AclThorough x the two probing message sets                 *)
 Worlds(tier) ==
   IF tier = "thorough"
   THEN WorldsOver(AclQuick, MsgLevels, MsgLevels)
-       \cup { [lay |-> pm.lay, dsrc |-> a.dsrc, d |-> a.d, users |-> a.users, msgs |-> pm.msgs] : a \in AclThorough, pm \in ProbeMsgs }
-  ELSE WorldsOver(AclQuick, MsgLevels, {<<>>, La, Lab})
+       \cup { [lay |-> pm.lay, dsrc |-> a.dsrc, d |-> a.d, d2 |-> a.d2, users |-> a.users, msgs |-> pm.msgs] : a \in AclThorough, pm \in ProbeMsgs }
+       \cup AmbiguousWorlds
+  ELSE WorldsOver(AclQuick, MsgLevels, {<<>>, La, Lab}) \cup AmbiguousWorlds
 
 Cmd(op, m, u, s) == [op |-> op, m |-> m, u |-> u, s |-> s]
 Battery(lay) ==
@@ -389,7 +420,7 @@ RECURSIVE CmdsInOrder(_)
 CmdsInOrder(S) == IF S = {} THEN <<>> ELSE
   LET x == CHOOSE y \in S : \A z \in S : CmdKey(y) <= CmdKey(z) IN <<x>> \o CmdsInOrder(S \ {x})
 HttpSession(tier, lay) ==
-  CmdsInOrder({Cmd(op, m, cr[1], cr[2]) : op \in HttpOps, m \in 1..(IF lay = 1 THEN 2 ELSE 3), cr \in Creds(tier)})
+  CmdsInOrder({Cmd(op, m, cr[1], cr[2]) : op \in HttpOps, m \in 1..(IF lay \in {1, 4} THEN 2 ELSE 3), cr \in Creds(tier)})
 
 (* telnet: [auth prefix] battery [auth prefix] battery  (the second battery meets caches and poll priorities left by *)
 (* the first user); HTTP: every request form x slot x credentials, then an authenticated telnet battery            *)
@@ -398,6 +429,11 @@ Sessions(tier) ==
       lay \in 1..3, p \in AuthPrefixes(tier), q \in AuthPrefixes(tier) \ {<<>>} }
   \cup { [lay |-> lay, cmds |-> HttpSession(tier, lay) \o <<Cmd("auth", 1, 1, 1)>> \o Battery(lay)] : lay \in 1..3 }
   \cup { [lay |-> lay, cmds |-> WarmSession(lay, p)] : lay \in 1..3, p \in WarmPrefixes }
+  \cup { [lay |-> 4, cmds |-> p \o Battery(4)] :          \* ambiguous configurations: one battery per way of (not) logging in
+          p \in {<<>>, <<Cmd("auth", 1, 1, 1)>>, <<Cmd("auth", 1, 1, 4)>>, <<Cmd("auth", 1, 1, 9)>>, <<Cmd("auth", 1, 2, 2)>>,
+                 <<Cmd("auth", 1, 1, 1), Cmd("auth", 1, 1, 4)>>, <<Cmd("auth", 1, 1, 4), Cmd("auth", 1, 1, 1)>>} }
+  \cup { [lay |-> 4, cmds |-> CmdsInOrder({Cmd(op, m, cr[1], cr[2]) : op \in {"g", "gq", "gp"}, m \in 1..2,
+                                                                      cr \in {<<0, 0>>, <<1, 1>>, <<1, 4>>, <<1, 9>>}})] }
 
 SinkUsers == 0..3
 
